@@ -2,6 +2,7 @@ package hx
 
 import (
 	"fmt"
+	"math/rand"
 	"sort"
 	"strings"
 	"time"
@@ -164,6 +165,28 @@ func (c04) Run(c *Ctx, i int) CaseResult {
 		for _, f := range sfeats {
 			if f == "scrub-compared" {
 				scrubbed++
+			}
+		}
+	}
+	if i%10 == 3 {
+		// two documents that differ only in where a line break ends a comment — and so in whether the client asks for
+		// `id` at a join — sent without a hash to a caching gateway: each gets its own keys
+		store := GenStore(rand.New(rand.NewSource(5)), false)
+		cached, err := NewFed(FixedFed(), store, gateway.WithAutomaticQueryPlanCache())
+		if err == nil {
+			for k, text := range []string{"{ me { lastName # join key:\n id } }", "{ me { lastName # join key: id\n } }", "{ me { lastName # join key:\n id } }"} {
+				o := cached.Run(text, "", nil, 5*time.Second)
+				fresh, err := NewFed(FixedFed(), store)
+				if err != nil {
+					break
+				}
+				w := fresh.Run(text, "", nil, 5*time.Second)
+				if Canon(o.Data) != Canon(w.Data) {
+					res.Fails = append(res.Fails, Failure{Channel: "L0.keys", Classifier: "unclassified",
+						What:  fmt.Sprintf("request %d of a sequence of hash-less requests on a caching gateway has other keys than on a gateway that has seen nothing: %q", k, text),
+						Input: map[string]interface{}{"query": text}, Expected: w.Data, Observed: o.Data})
+					return res
+				}
 			}
 		}
 	}
